@@ -140,7 +140,16 @@ class Exec:
             self.p.wait()
             self._stderr()
             self.p = None
-            raise Crash('timeout: no answer within %ss (hang)' % (timeout or self.timeout), '', list(lines))
+            limit = timeout or self.timeout
+            if lines and lines[0] == 'reset' and not getattr(self, '_retrying', False):
+                # a self-contained deterministic script that ran out of time (a loaded machine?) is re-run alone, in a fresh
+                # executor, with ten times the limit before it is called a hang
+                self._retrying = True
+                try:
+                    return self.run(lines, parse=parse, timeout=limit * 10)
+                finally:
+                    self._retrying = False
+            raise Crash('timeout: no answer within %ss (hang)' % limit, '', list(lines))
         finally:
             _arm(0)
         self.nscripts += 1
